@@ -671,16 +671,33 @@ impl Membership<VT> for VMem {
 }
 
 // ---------------------------------------------------------------------------------------------
-/// Transport stub: answers `send_vote_requests` with a harness-chosen `VoteResult` and records the
-/// request (and the hard state saved at the moment the request left the node: C02).
+/// Transport stub.  `send_vote_requests` follows the contract of the real gRPC transport
+/// (grpc_transport.rs): `peer_ids` = the distinct current voters other than self, `responses` = at most one
+/// entry per contacted voter (a voter may stay silent, fail, or answer).  What each voter answers is
+/// harness-chosen (`plan[k]` for the k-th voter).  The request and the hard state saved at the moment the
+/// request left the node are recorded (C02).
+#[derive(Clone, Copy, Debug)]
+pub enum VotePlan {
+    Silent,
+    Fail,
+    Resp { granted: bool, term: u64, last_log_index: u64, last_log_term: u64 },
+}
 pub struct VTr {
-    pub votes: SCell<Option<VoteResult>>,
+    pub plan: SCell<[VotePlan; MAXPEERS]>,
     pub sent_vote_req: SCell<Option<VoteRequest>>,
     pub vote_calls: SCell<u32>,
+    pub saved_at_send: SCell<Option<HardState>>,
+    pub log_for_saved: SCell<Option<Arc<VLog>>>,
 }
 impl VTr {
     pub fn new() -> Self {
-        VTr { votes: SCell::new(None), sent_vote_req: SCell::new(None), vote_calls: SCell::new(0) }
+        VTr {
+            plan: SCell::new([VotePlan::Silent; MAXPEERS]),
+            sent_vote_req: SCell::new(None),
+            vote_calls: SCell::new(0),
+            saved_at_send: SCell::new(None),
+            log_for_saved: SCell::new(None),
+        }
     }
 }
 #[async_trait]
@@ -697,13 +714,34 @@ impl Transport<VT> for VTr {
     ) -> Result<AppendResult> {
         unreachable!()
     }
-    async fn send_vote_requests(&self, r: VoteRequest, _p: &RetryPolicies, _m: Arc<VMem>) -> Result<VoteResult> {
+    async fn send_vote_requests(&self, r: VoteRequest, _p: &RetryPolicies, m: Arc<VMem>) -> Result<VoteResult> {
         *self.sent_vote_req.m() = Some(r);
         *self.vote_calls.m() += 1;
-        match self.votes.m().take() {
-            Some(v) => Ok(v),
-            None => Err(Error::Fatal(String::new())),
+        if let Some(l) = self.log_for_saved.r() {
+            *self.saved_at_send.m() = l.i.r().saved;
         }
+        let mut peer_ids = std::collections::HashSet::new();
+        let mut responses = Vec::new();
+        let mut k = 0usize;
+        let mut i = 0usize;
+        while i < m.npeers {
+            if (m.learner_mask >> i) & 1 == 0 {
+                peer_ids.insert((i as u32) + 2);
+                match self.plan.r()[k] {
+                    VotePlan::Silent => {}
+                    VotePlan::Fail => responses.push(Err(Error::Fatal(String::new()))),
+                    VotePlan::Resp { granted, term, last_log_index, last_log_term } => {
+                        responses.push(Ok(VoteResponse { term, vote_granted: granted, last_log_index, last_log_term }))
+                    }
+                }
+                k += 1;
+            }
+            i += 1;
+        }
+        if peer_ids.is_empty() {
+            return Err(Error::Fatal(String::new()));
+        }
+        Ok(VoteResult { peer_ids, responses })
     }
     async fn join_cluster(&self, _l: u32, _r: JoinRequest, _p: BackoffPolicy, _m: Arc<VMem>) -> Result<JoinResponse> {
         unreachable!()
@@ -740,8 +778,13 @@ impl Transport<VT> for VTr {
 
 // ---------------------------------------------------------------------------------------------
 /// Poll a future that must complete without suspending (all stubs are synchronous).
+/// The future is deliberately NOT dropped: the drop glue of an async block switches on the generator state, which
+/// CBMC sees as a merged (non-constant) value after the poll, so it would symbolically execute the drop of every
+/// suspended state -- each holding boxed `dyn Future`s whose drop dispatches over every async block of the program.
 pub fn run_ready<F: std::future::Future>(f: F) -> F::Output {
-    match poll_once(std::pin::pin!(f)) {
+    let mut f = std::mem::ManuallyDrop::new(f);
+    let p = unsafe { std::pin::Pin::new_unchecked(&mut *f) };
+    match poll_once(p) {
         Some(v) => v,
         None => panic!("future suspended"),
     }
@@ -776,4 +819,9 @@ pub fn mk_ctx(log: VLog, mem: VMem, cfg: Arc<RaftNodeConfig>) -> RaftContext<VT>
         },
         node_config: cfg,
     }
+}
+
+/// `RaftNodeConfig::default()` (concrete; only fields a harness overrides are symbolic).
+pub fn shared_default_config() -> Arc<RaftNodeConfig> {
+    Arc::new(RaftNodeConfig::default())
 }
